@@ -161,10 +161,12 @@ class Ctx:
 
     def rand_key(self, bucket, minlen=1, maxlen=40):
         rng = self.rng
+        if self.conf.get('shortkeys') and minlen < 200:
+            maxlen = 6
         while True:
             n = rng.choice([rng.randint(minlen, max(minlen, min(maxlen, 12))), rng.randint(minlen, maxlen), rng.randint(minlen, maxlen)])
-            if rng.random() < 0.04 and minlen < 200:
-                n = rng.choice([250, 232, 233])
+            if rng.random() < 0.04 and minlen < 200 and not self.conf.get('shortkeys'):
+                n = rng.choice([248, 232, 233])      # "??" + key must stay within max_key_len
             k = bytes(rng.choice(KEYCH) for _ in range(n))
             if k[0] in b'@?' or k[0] <= 32:
                 continue
@@ -177,7 +179,7 @@ class Ctx:
             return self.keys[kid]
         rng, cls, name = self.rng, kr['cls'], kr['name']
         if cls == 'plain' and name.startswith('kl'):
-            k = self.rand_key(self.served, 233, 250)       # record of an empty value is still > 256 bytes
+            k = self.rand_key(self.served, 233, 248)       # record of an empty value is still > 256 bytes
         elif cls == 'plain':
             k = self.rand_key(self.served)
         elif cls == 'unserved':
@@ -384,6 +386,8 @@ def concretise(cmd, ctx, last=False):
                 toks.append(b'noreply')
             if fault == 'extra':
                 toks = [b'delete', keys[0], b'0', b'noreply', b'x']
+            if fault == 'tok4':
+                toks = [b'delete', keys[0]] + rng.choice([[b'0', b'x'], [b'x'], [b'noreply', b'0']])
         elif verb in ('incr', 'decr'):
             d = c['delta']
             if nf == 'delta':
@@ -395,6 +399,8 @@ def concretise(cmd, ctx, last=False):
                 toks.append(b'noreply')
             if fault == 'extra':
                 toks = [verb.encode(), keys[0], ds, b'2', b'3']
+            if fault == 'tok4':
+                toks = [verb.encode(), keys[0], ds, rng.choice([b'x', b'0', b'NOREPLY', b'noreply1'])]
         elif verb == 'stats':
             toks = [b'stats'] + rng.choice([[], [], [b'cmd_get'], [b'curr_items', b'nosuch']])
         elif verb in ('version', 'verbosity', 'flush_all', 'quit', 'optimize_stat'):
@@ -564,17 +570,18 @@ def truncations(sid, rng_seed, script, every=1, **kw):
     """one scenario per cut position of the script's byte stream (the same concretisation for all cuts)"""
     out = []
     kw = dict(kw, close_first=True)
-    probe_sc = make_scenario(sid, random.Random(rng_seed), script, **kw)
-    total = [c for c in probe_sc['conns'] if c['name'] == 'c1'][0]['total']
+    base = make_scenario(sid, random.Random(rng_seed), script, **kw)
+    total = [c for c in base['conns'] if c['name'] == 'c1'][0]['total']
+    blob = json.dumps(base)
     for cut in range(1, total, every):
-        sc = make_scenario('%s-t%d' % (sid, cut), random.Random(rng_seed), script, **kw)
+        sc = json.loads(blob)
+        sc['id'] = '%s-t%d' % (sid, cut)
         c1 = [c for c in sc['conns'] if c['name'] == 'c1'][0]
-        # re-derive per command how much of it is delivered
+        # per command: how much of it is delivered
         off, cmds = 0, []
         for c in c1['cmds']:
             if off >= cut:
                 break
-            c = dict(c)
             c['got'] = min(c['tl'], cut - off)
             if c['got'] < c['tl']:
                 c['cut'] = 'line' if c['got'] < c['hl'] else 'body'
@@ -674,6 +681,14 @@ def norm_reply(r, sc):
 
 
 LED = {'rl.size': 's', 'rl.count': 'c'}
+CLAMP = 10 ** 7      # TLC integers are 32-bit; garbage sizes (F10-resvflag) are clamped and the event is marked
+
+
+def clamp(v, mark):
+    if abs(v) > CLAMP:
+        mark[0] = True
+        return CLAMP if v > 0 else -CLAMP
+    return v
 
 
 def norm_events(sc, events):
@@ -681,6 +696,7 @@ def norm_events(sc, events):
     rt = []
     hooks = []
     addr = {}
+    clamped = [False]
     probes = {c['name'] for c in sc.get('conns', []) if c.get('probe')}
     cmds_of = {c['name']: c['cmds'] for c in sc.get('conns', [])}
     for e in events:
@@ -701,19 +717,20 @@ def norm_events(sc, events):
                 p = h['p']
                 if p in LED:
                     if h['lim'] != '?':
-                        hooks.append(dict(k=h['lim'] + LED[p], d=int(h['d'])))
+                        hooks.append(dict(k=h['lim'] + LED[p], d=clamp(int(h['d']), clamped)))
                 elif p in ('c.alloc', 'c.free'):
                     i = addr.setdefault(h['addr'], len(addr) + 1)
                     hooks.append(dict(k='ca' if p == 'c.alloc' else 'cf', d=i))
                 elif p in ('p.token.get', 'p.token.put'):
                     hooks.append(dict(k='tg' if p.endswith('get') else 'tp', d=int(h['t'])))
         elif a == 'Quiesce':
-            c = e['cnt']
+            c = {k: [clamp(int(x), clamped) for x in v] for k, v in e['cnt'].items()}
             out.append(dict(a='Quiesce', n=n, final=bool(e.get('final', True)), tokens=e['tokens'], maxreq=e['max_req'],
                             cnt=dict(gc=c['get'][0], gs=c['get'][1], sc=c['set'][0], ss=c['set'][1], ac=c['alloc'][0],
                                      **{'as': c['alloc'][1]}, fc=c['flush'][0], fs=c['flush'][1]),
-                            led=hooks))
+                            led=hooks, clamped=clamped[0]))
             hooks = []
+            clamped = [False]
         elif a == 'RT':
             name = ('req:' + e.get('verb', '')) if e['t'] == 'req' else ('resp:' + e.get('status', ''))
             rt.append(dict(name=name, ok=bool(e.get('same')) and 'panic' not in e))
@@ -890,13 +907,13 @@ def gen_scenarios(tier, seed, alpha, log):
         add([copy.deepcopy(c)])
     pairs = [(a, b) for a in alpha for b in alpha if valid_script([a, b])]
     if tier == 'quick':
-        for a, b in rng.sample(pairs, 260):
+        for a, b in rng.sample(pairs, 150):
             add([copy.deepcopy(a), copy.deepcopy(b)])
-        nlong, nbyte, ntcp, noom, ndisk, nconc, nstall, ntrunc = 90, 40, 24, 30, 40, 16, 8, 2
+        nlong, nbyte, ntcp, noom, ndisk, nconc, nstall, ntrunc = 60, 30, 16, 24, 30, 12, 6, 1
     else:
         for a, b in pairs:
             add([copy.deepcopy(a), copy.deepcopy(b)])
-        nlong, nbyte, ntcp, noom, ndisk, nconc, nstall, ntrunc = 2500, 400, 200, 400, 600, 200, 80, 40
+        nlong, nbyte, ntcp, noom, ndisk, nconc, nstall, ntrunc = 2000, 300, 150, 300, 500, 150, 60, 14
     for _ in range(nlong):
         add(sample_script(rng, alpha, rng.randint(3, 7)))
     for _ in range(nbyte):
@@ -930,7 +947,7 @@ def gen_scenarios(tier, seed, alpha, log):
         n[0] += 1
         script = sample_script(rng, tpool, rng.randint(2, 3))
         tr = truncations('p%05d' % n[0], seed * 1000003 + n[0], script, every=1, probe=copy.deepcopy(PROBE),
-                         conf_over=dict(body_c=16, body_big=40, body_max=80))
+                         conf_over=dict(body_c=16, body_big=40, body_max=80, shortkeys=True))
         scen += tr
     n[0] += 1
     scen.append(roundtrip_scenario('p%05d' % n[0], random.Random(seed + 99)))
@@ -964,7 +981,7 @@ def nontrivial(pid, sc, events):
                 early += 1
             if h['p'] in ('rl.count', 'rl.size'):
                 prev = h if h['p'] == 'rl.count' else prev
-    return fadd > 3 and fsub > 3 and early > 0
+    return fadd >= 1 and fsub >= 1 and early > 0
 
 
 # ----------------------------------------------------------------------------- run
@@ -1022,7 +1039,7 @@ def run(pid, tier, seed, work, log, replay=None):
             if s['id'] in t2:
                 traces[s['id']] = t2[s['id']]
     per = {}
-    chunks = [[] for _ in range(1 if len(scen) < 400 else min(8, V.NCPU // 2))]
+    chunks = [[] for _ in range(1 if len(scen) < 200 else (8 if len(scen) < 5000 else 12))]
     for i, s in enumerate(scen):
         ev = norm_events(s, traces[s['id']])
         per[s['id']] = ev
@@ -1072,7 +1089,7 @@ def run(pid, tier, seed, work, log, replay=None):
         'evaluations': len(scen), 'distinct_nontrivial': len(nt),
         'rule': ('C11: script holds >= 1 storage command whose body was delivered and >= 1 faulty command or special key, and the '
                  'server answered or closed' if pid == 'C11' else
-                 'C12: the hook ledger shows > 3 buffers handed to the write buffer and freed by the flush, and >= 1 SetData '
+                 'C12: the hook ledger shows >= 1 buffer handed to the write buffer and freed by the flush, and >= 1 SetData '
                  'entry released on another path (error / refusal / invalid key)'),
         'events_validated': nev, 'trace_states': tstates, 'mc_runs': mcruns, 'mc_selftest': selft,
         'delivery_modes': modes,
